@@ -12,7 +12,7 @@
 use crate::uf::Uf;
 
 pub const JH_MAX: usize = 48;
-pub static mut JH: Uf<7, 1, 40> = Uf::new();
+pub static mut JH: Uf<7, 1, 8> = Uf::new();
 
 fn pack48(data: &[u8], tag: u64) -> [u64; 7] {
     let n = data.len();
